@@ -739,6 +739,54 @@ def gen_split(rng):
                  'tier': 'exact'}
 
 
+def exec_seq(rec):
+    """a history of composite elements in ONE process: each element of the sequence is created, used and checked
+    (split / split_indices / interpolate / block assembly) after the earlier ones were created and used"""
+    events = []
+    for k, sub in enumerate(rec['subs']):
+        for ev in exec_split(sub['split']) + exec_block(sub['block']):
+            ev['tags'] = dict(ev.get('tags', {}), pos_in_history=k)
+            events.append(ev)
+    return events
+
+
+def gen_seq(rng):
+    """composites with the same components in different orders (equal totals per entity kind, different distribution
+    over the components), visited in a random order; the first one is visited again at the end"""
+    kind = str(rng.choice(['line', 'tri', 'tri', 'tri', 'quad', 'quad', 'tet', 'hex']))
+    mrec = fem.lattice_mesh(kind, rng)
+    mesh = fem.make_mesh(mrec)
+    g = _basis_spec(rng, kind, mesh, allow=('cell', 'cell', 'cellsub', 'facet', 'ifacetall'))
+    if g is None:
+        return None
+    bs, btype, restricted = g
+    pool = SCALAR_EXACT[kind]
+    ncomp = int(rng.integers(2, 4)) if len(pool) >= 3 else 2
+    comps = [pool[j] for j in rng.permutation(len(pool))[:ncomp]]
+    perms = [list(p) for p in itertools.permutations(comps)]
+    order = [perms[j] for j in rng.permutation(len(perms))[:int(rng.integers(2, 4))]]
+    order.append(order[0])
+    subs = []
+    for perm in order:
+        spec = ['comp'] + perm
+        b = dict(bs, elem=spec)
+        try:
+            basis = fem.make_basis(mesh, kind, b)
+            nc = len(fem.accessors(basis.basis[0]))
+        except Exception:
+            return None
+        nel, nq = int(basis.nelems), int(basis.dx.shape[1])
+        if nel == 0 or basis.Nbfun ** 2 * nel * nq > 2500 or basis.N > 60:
+            return None
+        F = fem.gen_bilinear(rng, nc, nc, [], ['alpha'], nsum=int(rng.integers(2, 4)))
+        subs.append({'split': {'driver': 'split', 'mesh': mrec, 'bs': b, 'grad': 0, 'x': _ivec(rng, basis.N)},
+                     'block': {'driver': 'block', 'mesh': mrec, 'bs': b, 'grad': 0, 'fields': [], 'alpha': int(rng.choice([-2, 2, 3])),
+                               'F': F, 'formblock': 0}})
+    rec = {'driver': 'seq', 'mesh': mrec, 'subs': subs}
+    return rec, {'a': 'Seq', 'kind': kind, 'btype': btype, 'elems': ' > '.join(fem.elem_name(['comp'] + p) for p in order),
+                 'restricted': restricted, 'tier': 'exact'}
+
+
 def _mixed(spec):
     """components of different tensor shape (Form.block cannot build zero fields of the other component's shape)"""
     def shape(s):
@@ -1021,12 +1069,12 @@ def gen_law(rng):
 
 # ------------------------------------------------------------------------------------------ plumbing
 
-EXEC = {'split': exec_split, 'block': exec_block, 'list': exec_list, 'coo': exec_coo, 'bmat': exec_bmat, 'cb': exec_cb,
+EXEC = {'seq': exec_seq, 'split': exec_split, 'block': exec_block, 'list': exec_list, 'coo': exec_coo, 'bmat': exec_bmat, 'cb': exec_cb,
         'law': exec_law}
-GEN = {'split': gen_split, 'block': gen_block, 'list': gen_list, 'coo': gen_coo, 'bmat': gen_bmat, 'cb': gen_cb,
+GEN = {'seq': gen_seq, 'split': gen_split, 'block': gen_block, 'list': gen_list, 'coo': gen_coo, 'bmat': gen_bmat, 'cb': gen_cb,
        'law': gen_law}
-COUNTS = {'quick': {'split': 170, 'block': 90, 'list': 70, 'coo': 150, 'bmat': 60, 'cb': 70, 'law': 90},
-          'thorough': {'split': 7000, 'block': 3500, 'list': 2500, 'coo': 6000, 'bmat': 1200, 'cb': 3000, 'law': 3500}}
+COUNTS = {'quick': {'seq': 45, 'split': 160, 'block': 80, 'list': 70, 'coo': 150, 'bmat': 60, 'cb': 70, 'law': 90},
+          'thorough': {'seq': 1500, 'split': 7000, 'block': 3500, 'list': 2500, 'coo': 6000, 'bmat': 1200, 'cb': 3000, 'law': 3500}}
 
 
 def execute(rec):
